@@ -5,6 +5,7 @@ verus! {
 //@include lib/prelude.rs
 //@include lib/keys.rs
 //@include lib/specs_store.rs
+//@include lib/bitmap_select.rs
 //@include lib/forest.rs
 //@include lib/forest_delete.rs
 //@include lib/frozen.rs
